@@ -254,6 +254,7 @@ int main (int argc, char **argv)
 	static const int modes [] = { SFM_READ, SFM_WRITE, SFM_RDWR } ;
 	int f, mi, a, b, c ;
 	vh_init (argc, argv, "c09_invalid_calls", "C09") ;
+	vh_case_secs = 900 ;		/* a depth-4 case runs 69 000 histories twice */
 	if (vh_case ("open failures, NULL handle, error-number table")) { vh_distinct (1) ; vh_distinct (2) ; open_failures () ; }
 	for (f = 0 ; f < 12 ; f++) for (mi = 0 ; mi < 3 ; mi++) for (a = 0 ; a < NCALLS ; a++)
 	{	MEMF base ; int format = fmts [f][0], ch = fmts [f][1], depth = (vh_thorough && (f == 0 || f == 2 || f == 4 || f == 7)) ? 4 : 3, d ;
